@@ -667,8 +667,6 @@ static json gen_smooth() {
   return c;
 }
 
-extern "C" const char *__asan_default_options() { return "exitcode=77"; }
-
 int main(int argc, char **argv) {
   std::vector<Sub> subs;
   subs.push_back({"interp", gen_interp, run_interp, 3.0, 100, nullptr});
